@@ -150,6 +150,29 @@ structure LoopSpec (est : Nat → Int) (incHits : Int) (key : Nat) (cost : Int) 
   reject_iff : R.stuck = false → (R.added = false ↔ ∃ it ∈ R.log, it.victim = none)
   only_released : ∀ j, j ≠ key → R.lfu.costs.get j = none ∨ R.lfu.costs.get j = l.costs.get j
   released : ∀ it ∈ R.log, ∀ v, it.victim = some v → v.1 ≠ key → R.lfu.costs.get v.1 = none
+  /-- a charge that disappeared belongs to a victim of some iteration -/
+  only_victims : ∀ j, j ≠ key → (l.costs.get j).isSome → R.lfu.costs.get j = none →
+    ∃ it ∈ R.log, ∃ vc, it.victim = some (j, vc)
+
+/-- log entries accumulated so far are part of the final log -/
+theorem evictLoop_log_mono (est : Nat → Int) (incHits : Int) (key : Nat) (cost : Int)
+    (l : Lfu) (sample victims : List (Nat × Int)) (evs : List MEv) (log : List IterLog)
+    (refills : List (List (Nat × Int))) (it : IterLog) (h : it ∈ log) :
+    it ∈ (evictLoop est incHits key cost l sample victims evs log refills).log := by
+  induction refills generalizing l sample victims evs log with
+  | nil => simp only [evictLoop]; split <;> simpa using h
+  | cons x xs ih =>
+    simp only [evictLoop]
+    split
+    · simpa using h
+    · cases hmin : minEntry est (sample ++ x) with
+      | none => simp [h]
+      | some r =>
+        obtain ⟨i, ⟨vk, vc⟩, hh⟩ := r
+        simp only
+        split
+        · simp [h]
+        · apply ih; simp [h]
 
 theorem evictLoop_spec (est : Nat → Int) (incHits : Int) (key : Nat) (cost : Int)
     (refills : List (List (Nat × Int))) :
@@ -166,7 +189,7 @@ theorem evictLoop_spec (est : Nat → Int) (incHits : Int) (key : Nat) (cost : I
     simp only [evictLoop]
     split
     · rename_i hroom
-      refine ⟨Lfu.increment_inv l key cost hinv hkey, rfl, rfl, by simpa using hlog, ?_, ?_, by simp, ?_, ?_, ?_⟩
+      refine ⟨Lfu.increment_inv l key cost hinv hkey, rfl, rfl, by simpa using hlog, ?_, ?_, by simp, ?_, ?_, ?_, ?_⟩
       · simp [hvic, List.filterMap_reverse]
       · intro _
         refine ⟨?_, by simp [Lfu.increment], rfl⟩
@@ -178,18 +201,23 @@ theorem evictLoop_spec (est : Nat → Int) (incHits : Int) (key : Nat) (cost : I
       · intro it hit v hv hne
         simp only [List.mem_reverse] at hit
         simp [Lfu.increment, hne, hrel it hit v hv hne]
-    · refine ⟨hinv, rfl, rfl, by simpa using hlog, ?_, by simp, fun _ => hkey, by simp, ?_, ?_⟩
+      · intro j hj hs hn
+        simp only [Lfu.increment, KMap.get_set, hj, if_false] at hn
+        rw [hn] at hs; cases hs
+    · refine ⟨hinv, rfl, rfl, by simpa using hlog, ?_, by simp, fun _ => hkey, by simp, ?_, ?_, ?_⟩
       · simp [hvic, List.filterMap_reverse]
       · intro j _; right; rfl
       · intro it hit v hv hne
         simp only [List.mem_reverse] at hit
         exact hrel it hit v hv hne
+      · intro j _ hs hn
+        rw [hn] at hs; cases hs
   | cons extras more ih =>
     intro l sample victims evs log hinv hkey hlog hsome hvic hrel
     simp only [evictLoop]
     split
     · rename_i hroom
-      refine ⟨Lfu.increment_inv l key cost hinv hkey, rfl, rfl, by simpa using hlog, ?_, ?_, by simp, ?_, ?_, ?_⟩
+      refine ⟨Lfu.increment_inv l key cost hinv hkey, rfl, rfl, by simpa using hlog, ?_, ?_, by simp, ?_, ?_, ?_, ?_⟩
       · simp [hvic, List.filterMap_reverse]
       · intro _
         refine ⟨?_, by simp [Lfu.increment], rfl⟩
@@ -201,6 +229,9 @@ theorem evictLoop_spec (est : Nat → Int) (incHits : Int) (key : Nat) (cost : I
       · intro it hit v hv hne
         simp only [List.mem_reverse] at hit
         simp [Lfu.increment, hne, hrel it hit v hv hne]
+      · intro j hj hs hn
+        simp only [Lfu.increment, KMap.get_set, hj, if_false] at hn
+        rw [hn] at hs; cases hs
     · rename_i hroom
       have hroom' : l.roomLeft cost < 0 := by omega
       -- rejection record, shared by the two rejecting branches
@@ -210,7 +241,7 @@ theorem evictLoop_spec (est : Nat → Int) (incHits : Int) (key : Nat) (cost : I
               events := (MEv.rejectSets :: evs).reverse,
               log := (⟨l.roomLeft cost, sample ++ extras, none⟩ :: log).reverse } := by
         intro hall
-        refine ⟨hinv, rfl, rfl, ?_, ?_, by simp, fun _ => hkey, ?_, ?_, ?_⟩
+        refine ⟨hinv, rfl, rfl, ?_, ?_, by simp, fun _ => hkey, ?_, ?_, ?_, ?_⟩
         · intro it hit
           simp only [List.mem_reverse, List.mem_cons] at hit
           rcases hit with rfl | hit
@@ -224,6 +255,8 @@ theorem evictLoop_spec (est : Nat → Int) (incHits : Int) (key : Nat) (cost : I
           rcases hit with rfl | hit
           · simp at hv
           · exact hrel it hit v hv hne
+        · intro j _ hs hn
+          rw [hn] at hs; cases hs
       cases hmin : minEntry est (sample ++ extras) with
       | none =>
         simp only
@@ -274,14 +307,23 @@ theorem evictLoop_spec (est : Nat → Int) (incHits : Int) (key : Nat) (cost : I
                 · exact hrel it hit v hv hne)
           have hf := Lfu.remove_fields l vk
           refine ⟨hspec.inv, hspec.maxCost.trans hf.1, hspec.samples.trans hf.2, hspec.iters,
-            hspec.victims, hspec.admitted, hspec.refused, hspec.reject_iff, ?_, hspec.released⟩
-          intro j hj
-          rcases hspec.only_released j hj with h0 | h0
-          · left; exact h0
-          · rw [Lfu.remove_get] at h0
+            hspec.victims, hspec.admitted, hspec.refused, hspec.reject_iff, ?_, hspec.released, ?_⟩
+          · intro j hj
+            rcases hspec.only_released j hj with h0 | h0
+            · left; exact h0
+            · rw [Lfu.remove_get] at h0
+              by_cases hjv : j = vk
+              · exact Or.inl (h0.trans (by simp [hjv]))
+              · exact Or.inr (h0.trans (by simp [hjv]))
+          · intro j hj hs hn
             by_cases hjv : j = vk
-            · exact Or.inl (h0.trans (by simp [hjv]))
-            · exact Or.inr (h0.trans (by simp [hjv]))
+            · -- j is the victim of this very iteration: its log entry is in the result's log
+              refine ⟨⟨l.roomLeft cost, sample ++ extras, some (vk, vc)⟩,
+                evictLoop_log_mono est incHits key cost _ _ _ _ _ _ _ (List.mem_cons_self ..), vc, ?_⟩
+              rw [hjv]
+            · have hs' : ((l.remove vk).1.costs.get j).isSome := by
+                rw [Lfu.remove_get]; simp [hjv, hs]
+              exact hspec.only_victims j hj hs' hn
 
 end Stretto
 
@@ -340,6 +382,8 @@ structure AddSpec (est : Nat → Int) (l : Lfu) (key : Nat) (cost : Int) (R : Ad
     (R.added = false ↔ ∃ it ∈ R.log, it.victim = none)
   only_released : ∀ j, j ≠ key → R.lfu.costs.get j = none ∨ R.lfu.costs.get j = l.costs.get j
   released : ∀ it ∈ R.log, ∀ v, it.victim = some v → v.1 ≠ key → R.lfu.costs.get v.1 = none
+  only_victims : ∀ j, j ≠ key → (l.costs.get j).isSome → R.lfu.costs.get j = none →
+    ∃ it ∈ R.log, ∃ vc, it.victim = some (j, vc)
 
 theorem policyAdd_spec (l : Lfu) (est : Nat → Int) (key : Nat) (cost : Int)
     (refills : List (List (Nat × Int))) (hinv : l.Inv) :
@@ -348,7 +392,8 @@ theorem policyAdd_spec (l : Lfu) (est : Nat → Int) (key : Nat) (cost : Int)
   by_cases hbig : cost > l.maxCost
   · simp only [hbig, if_true]
     exact ⟨hinv, rfl, fun _ => ⟨rfl, rfl, rfl⟩, fun h => by omega, fun h => by omega, by simp,
-      by simp, by simp, fun h => by omega, fun j _ => Or.inr rfl, by simp⟩
+      by simp, by simp, fun h => by omega, fun j _ => Or.inr rfl, by simp,
+      fun j _ hs hn => by rw [hn] at hs; cases hs⟩
   · simp only [hbig, if_false]
     cases hg : l.costs.get key with
     | some prev =>
@@ -360,11 +405,14 @@ theorem policyAdd_spec (l : Lfu) (est : Nat → Int) (key : Nat) (cost : Int)
       rw [hu] at hinv'
       simp only [hu]
       refine ⟨hinv', rfl, fun h => absurd h hbig, ?_, (fun _ h => by rw [hg] at h; cases h), by simp,
-        by simp, by simp, (fun _ h => by rw [hg] at h; cases h), ?_, by simp⟩
+        by simp, by simp, (fun _ h => by rw [hg] at h; cases h), ?_, by simp, ?_⟩
       · intro _ _
         refine ⟨rfl, rfl, by simp, ?_⟩
         intro j hj; simp [hj]
       · intro j hj; right; simp [hj]
+      · intro j hj hs hn
+        simp only [KMap.get_set, hj, if_false] at hn
+        rw [hn] at hs; cases hs
     | none =>
       have hu : l.update key cost = (l, false, []) := by simp [Lfu.update, hg]
       simp only [hu]
@@ -372,7 +420,7 @@ theorem policyAdd_spec (l : Lfu) (est : Nat → Int) (key : Nat) (cost : Int)
       · simp only [hroom, if_true]
         refine ⟨Lfu.increment_inv l key cost hinv hg, rfl, fun h => absurd h hbig,
           (fun _ h => by obtain ⟨x, hx⟩ := h; rw [hg] at hx; cases hx), ?_, ?_,
-          by simp, by simp, (fun _ _ h => by omega), ?_, by simp⟩
+          by simp, by simp, (fun _ _ h => by omega), ?_, by simp, ?_⟩
         · intro _ _ _
           refine ⟨rfl, rfl, by simp [Lfu.increment], ?_⟩
           intro j hj; simp [Lfu.increment, hj]
@@ -380,12 +428,16 @@ theorem policyAdd_spec (l : Lfu) (est : Nat → Int) (key : Nat) (cost : Int)
           refine ⟨?_, by simp [Lfu.increment], hg⟩
           simp only [Lfu.increment, Lfu.roomLeft] at *; omega
         · intro j hj; right; simp [Lfu.increment, hj]
+        · intro j hj hs hn
+          simp only [Lfu.increment, KMap.get_set, hj, if_false] at hn
+          rw [hn] at hs; cases hs
       · simp only [hroom, if_false]
         have hs := evictLoop_spec est (est key) key cost refills l [] [] [] [] hinv hg
           (by simp) (by simp) (by simp) (by simp)
         refine ⟨hs.inv, hs.maxCost, fun h => absurd h hbig,
           (fun _ h => by obtain ⟨x, hx⟩ := h; rw [hg] at hx; cases hx), fun _ _ h => absurd h hroom, ?_,
-          hs.iters, fun _ => hs.victims, fun _ _ _ hst => hs.reject_iff hst, hs.only_released, hs.released⟩
+          hs.iters, fun _ => hs.victims, fun _ _ _ hst => hs.reject_iff hst, hs.only_released, hs.released,
+          hs.only_victims⟩
         intro ha
         exact ⟨(hs.admitted ha).1, (hs.admitted ha).2.1, hg⟩
 
